@@ -515,7 +515,17 @@ pub fn run_listen_case(addr: &str, originals: &HashMap<Vec<u8>, (Sym, usize)>, b
     let mut open_to_end = false;
     if has_complete_malformed {
         match f.wait_eof(Duration::from_secs(3)) {
-            Wait::Eof => {}
+            Wait::Eof => {
+                // end-of-stream on our side is not yet "closed": the service must have let go of the
+                // connection altogether (a worker that only stops sending and keeps reading stays
+                // occupied for as long as the hostile peer likes)
+                if !f.write_refused(Duration::from_secs(2)) {
+                    return Err(Fail::new(
+                        "listen/malformed-half-closed",
+                        "after a malformed message the service ended its sending direction but keeps the connection open for reading (writes are still accepted 2 s later)".to_string(),
+                    ));
+                }
+            }
             _ => {
                 // still open: is it still being served?
                 f.send(&encode(&sentinel, Style::Compact));
